@@ -283,7 +283,7 @@ func (w *World) Explore(spec HarnessSpec) (*Report, error) {
 						rep.Witnesses = append(rep.Witnesses, out)
 					}
 				case "violation":
-					if len(rep.Violations) < 50 {
+					if len(rep.Violations) < 400 {
 						rep.Violations = append(rep.Violations, out)
 					}
 				case "infeasible":
